@@ -38,6 +38,7 @@ import (
 	"fmt"
 	"net"
 	"strings"
+	"sync/atomic"
 	"time"
 
 	ouroboros "github.com/blinklabs-io/gouroboros"
@@ -59,7 +60,7 @@ var c15Calls = []string{"ltm.has", "ltm.next", "ltm.sizes", "ltm.acq", "lsq.acq"
 var c15Scripts = []string{"ok", "silent", "close", "wrong", "extra", "garbage", "trunc", "unknown", "mid", "flood"}
 
 func init() {
-	register(&Prop{ID: "C15", Gen: genC15, Run: runC15, Timeout: 120 * time.Second})
+	register(&Prop{ID: "C15", Gen: genC15, Run: runC15, Timeout: 60 * time.Second})
 }
 
 func genC15(r *Rand, n int, tier string, emit func(string)) {
@@ -187,7 +188,7 @@ func runC15(op string) string {
 		vm := protocol.GetProtocolVersionMap(protocol.ProtocolModeNodeToNode, 764824073, false, false, false)
 		go func() {
 			_ = peer.send(0, g5enc(handshake.NewMsgProposeVersions(vm)))
-			_, _ = peer.recv(0x8000, 20*time.Second)
+			_, _ = peer.recv(0x8000, 10*time.Second)
 			// … and opens tx-submission
 			_ = peer.send(txsubmission.ProtocolId, g5enc([]any{uint64(txsubmission.MessageTypeInit)}))
 		}()
@@ -202,7 +203,7 @@ func runC15(op string) string {
 	} else {
 		// handshake responder: accept the highest proposed version with the proposer's own data
 		go func() {
-			msg, err := peer.recv(0, 20*time.Second)
+			msg, err := peer.recv(0, 10*time.Second)
 			if err != nil {
 				return
 			}
@@ -237,7 +238,7 @@ func runC15(op string) string {
 	if spec.server {
 		select {
 		case <-initCh:
-		case <-time.After(20 * time.Second):
+		case <-time.After(10 * time.Second):
 			return "no-init"
 		}
 	}
@@ -288,7 +289,7 @@ func runC15(op string) string {
 		}
 	}()
 	// serve the requests that precede the one under test, then apply the script
-	deadline := time.Now().Add(30 * time.Second)
+	deadline := time.Now().Add(10 * time.Second)
 	gotReq := false
 	for !gotReq && time.Now().Before(deadline) {
 		msg, err := peer.recv(fromLib, 200*time.Millisecond)
@@ -327,12 +328,13 @@ func runC15(op string) string {
 			if e != nil {
 				return "prep-failed:" + strings.ReplaceAll(e.Error(), " ", "_")
 			}
-		case <-time.After(30 * time.Second):
+		case <-time.After(10 * time.Second):
 			return "prep-hang"
 		}
 	}
 	// the peer's writes must not block the harness when the library stops reading (flood)
 	scriptDone := make(chan struct{})
+	var floodSent atomic.Int64
 	go func() {
 		defer close(scriptDone)
 		switch script {
@@ -357,6 +359,7 @@ func runC15(op string) string {
 				if peer.send(fromPeer, last) != nil {
 					return
 				}
+				floodSent.Add(1)
 			}
 		case "mid":
 			if !stopCall {
@@ -376,9 +379,18 @@ func runC15(op string) string {
 	}()
 	if stopCall {
 		// give the script a moment to arrive (flood: until the peer's writes stall), then Stop
-		select {
-		case <-scriptDone:
-		case <-time.After(300 * time.Millisecond):
+		lastN, idle := int64(-1), 0
+		for idle < 8 {
+			select {
+			case <-scriptDone:
+				idle = 8
+			case <-time.After(25 * time.Millisecond):
+				if n := floodSent.Load(); n == lastN {
+					idle++
+				} else {
+					lastN, idle = n, 0
+				}
+			}
 		}
 		go func() {
 			if call == "bf.getstop" {
@@ -388,13 +400,30 @@ func runC15(op string) string {
 			}
 		}()
 	}
+	if script == "flood" && !stopCall {
+		// the surplus messages must have arrived (or the library must have stopped reading them)
+		// before the peer disconnects: wait until the writer is done or makes no more progress
+		lastN, idle := int64(-1), 0
+		for idle < 8 {
+			select {
+			case <-scriptDone:
+				idle = 8
+			case <-time.After(25 * time.Millisecond):
+				if n := floodSent.Load(); n == lastN {
+					idle++
+				} else {
+					lastN, idle = n, 0
+				}
+			}
+		}
+	}
 	var ret *error
 	if script != "close" {
 		// after a correct reply the call is expected to return by itself: give it time
 		// (bounded) before the peer disconnects; otherwise a short silence is enough
 		quiet := 60 * time.Millisecond
 		if script == "ok" || script == "extra" || script == "flood" {
-			quiet = 20 * time.Second
+			quiet = 12 * time.Second
 		}
 		if stopCall {
 			quiet = 1500 * time.Millisecond
@@ -410,7 +439,7 @@ func runC15(op string) string {
 		select {
 		case e := <-resCh:
 			ret = &e
-		case <-time.After(10 * time.Second):
+		case <-time.After(8 * time.Second):
 		}
 	}
 	retStr := "HANG"
@@ -426,10 +455,10 @@ func runC15(op string) string {
 	select {
 	case <-closed:
 		closeStr = "ok"
-	case <-time.After(20 * time.Second):
+	case <-time.After(8 * time.Second):
 	}
 	ecStr := "open"
-	ecDeadline := time.After(20 * time.Second)
+	ecDeadline := time.After(8 * time.Second)
 drainErr:
 	for {
 		select {
@@ -442,7 +471,7 @@ drainErr:
 			break drainErr
 		}
 	}
-	n, _ := g5WaitLibGoroutines(base, 20*time.Second)
+	n, _ := g5WaitLibGoroutines(base, 8*time.Second)
 	leak := n - base
 	if leak < 0 {
 		leak = 0
